@@ -15,7 +15,7 @@ from sim.kernel import Result, Violation, stream
 
 PROP = 'C05'
 TIERS = {
-  'quick': dict(runs=700, deadline=50, workers=16),
+  'quick': dict(runs=700, deadline=100, workers=16),
   'thorough': dict(runs=40000, deadline=840, workers=16),
 }
 SELFTEST_RUNS = 96
@@ -49,26 +49,31 @@ def setup_worker(w, tier):
   np, jax, jnp, nn, flax = P.np, P.jax, P.jnp, P.nn, P.flax
   from flax import errors
   from flax.core import FrozenDict
-  from typing import Optional
+  from typing import Callable, Optional
 
   class KProg(nn.Module):
-    """A child whose integer attribute k enters the computation: a stale trace shows up as an old k."""
+    """A child whose integer attribute k enters the computation: a stale trace shows up as an old k.
+    `act` is a functools.partial attribute (an activation with a keyword setting) that carries the same number."""
 
     spec: str
     k: int = 0
+    act: Optional[Callable] = None
 
     @nn.compact
     def __call__(self, x):
-      return P.run_body(self, P.parse(self.spec), x, {}) + float(self.k)
+      y = P.run_body(self, P.parse(self.spec), x, {}) + float(self.k)
+      return self.act(y) if self.act is not None else y
 
   class JitMethodProg(nn.Module):
     spec: str
     k: int = 0
+    act: Optional[Callable] = None
 
     @nn.jit
     @nn.compact
     def __call__(self, x):
-      return P.run_body(self, P.parse(self.spec), x, {}) + float(self.k)
+      y = P.run_body(self, P.parse(self.spec), x, {}) + float(self.k)
+      return self.act(y) if self.act is not None else y
 
   class KProg2(nn.Module):
     """Two public methods on one setup-style module; the lifted twin is nn.jit(KProg2, methods=[both])."""
@@ -96,17 +101,20 @@ def setup_worker(w, tier):
       pre: int = 0
       post: bool = False
 
-      def helper(self, x):
-        return KProg(spec=self.spec)(x) + 1.0
+      def helper(self, x, reps=1):
+        # `reps` is a static ARGUMENT (not an attribute: the module fingerprint does not see it)
+        for _ in range(reps):
+          x = KProg(spec=self.spec)(x)
+        return x + 1.0
 
       if jit:
-        helper = nn.jit(helper)
+        helper = nn.jit(helper, static_argnames=('reps',))
 
       @nn.compact
-      def __call__(self, x):
+      def __call__(self, x, reps=1):
         for _ in range(self.pre):
           x = KProg(spec=self.spec)(x)
-        x = self.helper(x)
+        x = self.helper(x, reps=reps)
         if self.post:
           # one more auto-named child AFTER the jitted helper (a jit-cache hit must replay the auto-name cursor the helper leaves behind)
           x = KProg(spec=self.spec)(x)
@@ -166,13 +174,33 @@ def lifted_class(kind, init, mutable_col):
   return c
 
 
+_ACTS = {}
+
+
+def _shift(x, d=0.0):
+  return x + d
+
+
+def act_for(d):
+  """One functools.partial object per keyword value, alive for the whole process (partials are hashed by identity:
+  an id() recycled after garbage collection must not look like an unchanged attribute)."""
+  if d not in _ACTS:
+    import functools
+
+    _ACTS[d] = functools.partial(_shift, d=float(d))
+  return _ACTS[d]
+
+
 def ext_kchild(mod, ins, x, n, made):
   sub = made.get(n)
   if sub is None:
     spec = P.dumps(ins['mod'])
     lift = ins.get('lift')
+    kw = dict(k=ENV.k if ins.get('use_k') else 0)
+    if ins.get('act') and ins.get('use_k'):
+      kw = dict(k=0, act=act_for(ENV.k))  # the number travels in the keyword of a partial-valued attribute instead
     if ENV.plain or not lift:
-      sub = KProg(spec=spec, k=ENV.k if ins.get('use_k') else 0, name=ins['name'])
+      sub = KProg(spec=spec, name=ins['name'], **kw)
     else:
       ENV.used.add(lift)
       mut = any(mod.is_mutable_collection(c) for c in ('stats', 'batch_stats', 'cache'))
@@ -182,7 +210,7 @@ def ext_kchild(mod, ins, x, n, made):
         cls = KProg
       else:
         cls = lifted_class(lift, mod.is_initializing(), mut)
-      sub = cls(spec=spec, k=ENV.k if ins.get('use_k') else 0, name=ins['name'])
+      sub = cls(spec=spec, name=ins['name'], **kw)
     made[n] = sub
   for _ in range(ins.get('times', 1)):
     P.CTL.event('child-call')
@@ -203,7 +231,7 @@ def ext_kinner(mod, ins, x, n, made):
         cls = ENV.classes['jit_inner_method'] = make_inner(True)
     sub = made[n] = cls(spec=P.dumps(ins['mod']), pre=pre, post=bool(ins.get('post')), name=ins['name'])
   P.CTL.event('child-call')
-  return sub(x)
+  return sub(x, ins.get('reps', 1))
 
 
 def ext_kmeth(mod, ins, x, n, made):
@@ -237,20 +265,35 @@ def ext_region(mod, ins, x, n, made):
   for _ in range(ENV.k if ins.get('use_k') else 1):
     P.CTL.event('region-pre')
     x = g(x)
+  own = bool(ins.get('own_draw'))
+
+  def own_draw(m, x):
+    # the enclosing module itself draws (inside the region and, below, again after it)
+    return x + jax.random.randint(m.make_rng('dropout'), x.shape, -3, 4).astype(jnp.float32)
+
   if ENV.plain:
     P.CTL.event('region')
     x = g(x)
+    if own:
+      x = own_draw(mod, x)
   else:
     key = ('region', ins['lift'], ins['name'])
     fn = ENV.classes.get(key)
     if fn is None:
       def body(m, x):
         P.CTL.event('region')
-        return P.make(gspec, name=gname)(x)
+        x = P.make(gspec, name=gname)(x)
+        return own_draw(m, x) if own else x
 
-      fn = ENV.classes[key] = (nn.jit if ins['lift'] == 'jit' else nn.remat)(body)
+      if ins.get('rfilter'):
+        # only the listed sequences are lifted (the region draws from no other); the call still receives more sequences
+        fn = ENV.classes[key] = nn.remat(body, rngs=list(ins['rfilter']))
+      else:
+        fn = ENV.classes[key] = (nn.jit if ins['lift'] == 'jit' else nn.remat)(body)
     x = fn(mod, x)
   P.CTL.event('region-post')
+  if own:
+    x = own_draw(mod, x)
   return g(x)
 
 
@@ -415,6 +458,10 @@ def gen_sub(g, allow_rng, stats_ok=True, sow_ok=True):
   return dict(style='compact', name=None, body=body)
 
 
+def _has_param(spec):
+  return any(i['i'] == 'param' or (isinstance(i.get('mod'), dict) and _has_param(i['mod'])) for i in spec['body'])
+
+
 def generate(rs, tier):
   g = stream(rs, 'gen')
   body = [dict(i='param', name='w_root', kind='bias')]
@@ -425,7 +472,7 @@ def generate(rs, tier):
     lift = g.choice([None, 'jit', 'jit', 'jit_method', 'remat', 'mapv_params', 'mapv_mut'])
     rng_ok = lift not in ('jit', 'jit_method') or g.random() < 0.3
     sub = gen_sub(g, rng_ok and g.random() < 0.5)
-    body.append(dict(i='kchild', name=f'c{c}', mod=sub, lift=lift, use_k=g.random() < 0.7, times=g.choice([1, 1, 2]), has_rng=any(b['i'] == 'rng' for b in sub['body'])))
+    body.append(dict(i='kchild', name=f'c{c}', mod=sub, lift=lift, use_k=g.random() < 0.7, times=g.choice([1, 1, 2]), has_rng=any(b['i'] == 'rng' for b in sub['body']), act=g.random() < 0.3))
   r = g.random()
   if r < 0.2:
     # branches may draw random keys: since the repair of the shared branch counters (DESIGN.md 10.3) they receive the
@@ -441,13 +488,29 @@ def generate(rs, tier):
   if g.random() < 0.3:
     lift = g.choice(['jit', 'jit', 'remat'])
     body.append(dict(i='region', name='rg', lift=lift, use_k=g.random() < 0.8, mod=gen_nested_sub(g, g.random() < 0.6) if g.random() < 0.6 else gen_sub(g, g.random() < 0.5)))
+    if lift == 'remat' and g.random() < 0.5 and 'noise' not in P.streams_used(body[-1]['mod']):
+      body[-1]['mod']['body'].append(dict(i='rng', stream='dropout'))
+    used = P.streams_used(body[-1]['mod'])
+    if lift == 'remat' and used and used <= {'dropout'} and g.random() < 0.8:
+      body[-1]['rfilter'] = ['dropout']
+      body[-1]['own_draw'] = g.random() < 0.7
+      if _has_param(body[-1]['mod']):
+        # the child must see its first use - and initialise its parameters - outside the region (inside, 'params' is not lifted)
+        body[-1]['use_k'] = False
   if g.random() < 0.3:
     body.append(dict(i='rng', stream='dropout'))
   if g.random() < 0.2:
     # one or two instances of the same class with a different number of auto-named children before the jitted helper
     pres = g.sample([0, 1, 2], g.choice([1, 2, 2]))
+    reps = [g.choice([1, 1, 2, 3]) for _ in pres]
+    posts = [g.random() < 0.6 for _ in pres]
+    if g.random() < 0.4:
+      # three instances with the same module fingerprint (same number of children before the helper); the helper's
+      # static argument goes a, b, a: the third call is a jit-cache hit on the first trace after the second was made
+      a_, b_ = g.sample([1, 2, 3], 2)
+      pres, reps, posts = [pres[0]] * 3, [a_, b_, a_], [g.random() < 0.5, g.random() < 0.5, True]
     for j, pre in enumerate(pres):
-      body.append(dict(i='kinner', name=f'ki{j}', pre=pre, post=g.random() < 0.5, mod=dict(style='compact', name=None, body=[dict(i='param', name='w0', kind='bias')])))
+      body.append(dict(i='kinner', name=f'ki{j}', pre=pre, reps=reps[j], post=posts[j], mod=dict(style='compact', name=None, body=[dict(i='param', name='w0', kind='bias')])))
   if g.random() < 0.22:
     body.append(dict(i='kmeth', name='km', use_k=g.random() < 0.6, seq=[g.choice(['call', 'alt']) for _ in range(g.randrange(1, 4))],
                      mod=dict(style='setup', name=None, body=[dict(i='param', name='wa', kind='bias'), dict(i='var', col='stats', name='n_alt', kind='counter')])))
